@@ -37,7 +37,11 @@ C14_ALPHABET = [
     ["measure", "env:B", [], False, True],
     ["povm", "state", ["B.p"], "diag", False, True],
     ["povm", "ce:h1", ["A.p", "B.p"], "dil3", False, True],
+    ["measure", "ce:h1", ["A.p", "B.p"], True, False],
+    ["measure", "ce:h1", ["B.p", "A.f", "A.p"], False, True],
 ]
+# second world: the two polarizations already share a matrix-level (mixed) product state
+C14_PREFIX = [["op", "ce:h1", ["A.p", "B.p"], "CX", None], ["kraus", "ce:h1", ["A.p"], "dephase", None]]
 DRAWS = ("measure", "povm")
 
 
@@ -50,7 +54,7 @@ def c14_programs(maxlen):
     return progs
 
 
-def _c14_run(prog, seed, noise):
+def _c14_run(prog, seed, noise, prefixed=False):
     from . import env as E
     from .observe import Obs
     from .world import World, SAMPLER
@@ -71,6 +75,9 @@ def _c14_run(prog, seed, noise):
         E.CompositeEnvelope(E.Envelope(), E.Envelope())
         E.reset_globals(contraction=True, seed=seed)
     w = World.build(C14_WORLD)
+    if prefixed:
+        for a in C14_PREFIX:
+            w.apply(a, [])
     E.Config().set_seed(seed)
     SAMPLER.passthrough = True
     trace = []
@@ -88,11 +95,13 @@ def _c14_run(prog, seed, noise):
 
 def _c14_task(args):
     prog, seed = args
+    pre = bool(prog and prog[0] == -1)
+    body = [i for i in prog if i >= 0]
     out = {"prog": prog, "seed": seed, "viol": [], "runs": 0}
     try:
-        r1 = _c14_run(prog, seed, False)
-        r2 = _c14_run(prog, seed, False)
-        r3 = _c14_run(prog, seed, True)
+        r1 = _c14_run(body, seed, False, pre)
+        r2 = _c14_run(body, seed, False, pre)
+        r3 = _c14_run(body, seed, True, pre)
         out["runs"] = 3
         out["result"] = r1
         if r1 != r2:
@@ -133,6 +142,8 @@ def run_c14(tier, seed):
     t0 = time.time()
     q = tier == "quick"
     progs = c14_programs(2 if q else 3)
+    # the same programs (one step shorter) started from the matrix-level product-state world (marker -1)
+    progs = progs + [[-1] + p for p in c14_programs(1 if q else 2)]
     seeds = sorted(set([0, 1, 2 ** 31 - 1, int(seed) % (2 ** 31)]))
     tasks = [(p, s) for p in progs for s in seeds]
     ctx = mp.get_context("spawn")
@@ -151,7 +162,7 @@ def run_c14(tier, seed):
             for cl, sym, txt in r["viol"]:
                 viol.append({"sig": _sig("C14", cl, "program", sym), "detail": txt,
                              "witness": {"world": "C14", "history": [], "engine": "C14",
-                                         "program": {"actions": [C14_ALPHABET[i] for i in r["prog"]], "seed": r["seed"]}}})
+                                         "program": {"actions": [(C14_ALPHABET[i] if i >= 0 else "PREFIX CX+dephase") for i in r["prog"]], "seed": r["seed"]}}})
     # (b) fresh processes: a second, newly spawned pool recomputes a slice of the programs
     fresh_tasks = tasks if not q else tasks[:: max(1, len(tasks) // 200)]
     with ctx.Pool(nproc) as pool:
@@ -163,7 +174,7 @@ def run_c14(tier, seed):
             if results.get((tuple(r["prog"]), r["seed"])) != r["result"]:
                 viol.append({"sig": _sig("C14", "fresh", "program", "differs"), "detail": "result in a fresh process differs",
                              "witness": {"world": "C14", "history": [], "engine": "C14",
-                                         "program": {"actions": [C14_ALPHABET[i] for i in r["prog"]], "seed": r["seed"]}}})
+                                         "program": {"actions": [(C14_ALPHABET[i] if i >= 0 else "PREFIX CX+dephase") for i in r["prog"]], "seed": r["seed"]}}})
     if errors:
         print("HARNESS-ERROR", errors[0])
         return 2
@@ -191,7 +202,7 @@ def run_c14(tier, seed):
                    "distinct (symptom, outcome, draw) traces observed" % (2 if q else 3, seeds),
            "programs": len(progs), "seeds": seeds, "fresh_process_recomputations": len(fresh_tasks),
            "independence_pairs_seeds_0_63": sorted(set(pairs)), "exhaustive": True,
-           "samples": [{"actions": [C14_ALPHABET[i] for i in progs[len(progs) // 2]], "seed": seeds[0],
+           "samples": [{"actions": [(C14_ALPHABET[i] if i >= 0 else "PREFIX CX+dephase") for i in progs[len(progs) // 2]], "seed": seeds[0],
                         "result": results.get((tuple(progs[len(progs) // 2]), seeds[0]), {}).get("trace")}],
            "known_findings_matched": {k: u["count"] for k, u in used.items()}}
     report.write_evidence("C14", tier, seed, "model_checking", cov, time.time() - t0, len(new),
@@ -216,6 +227,7 @@ C15_SPECS = {
     "XFF": ("XFF", None, [["A.f", "B.f"], ["B.f", "A.f"]]),
     "XPP": ("XPP", None, [["A.p", "B.p"], ["B.p", "A.p"]]),
     "XFP": ("XFP", None, [["A.f", "A.p"], ["B.f", "A.p"]]),
+    "XF1": ("XF1", None, [["A.f"], ["B.f"]]),
     "Creation": ("Creation", None, [["A.f"], ["B.f"]]),
     "Displace": ("Displace", {"alpha": 0.5}, [["A.f"], ["B.f"]]),
     "PhaseShift": ("PhaseShift", {"phi": PI / 2}, [["A.f"], ["B.f"]]),
@@ -250,6 +262,10 @@ def _c15_make(w, specname, targets):
         op = E.Operation(E.CompositeOperationType.Expression,
                          expr=("expm", ("s_mult", 0.3j, ("kron", "n0", ("m_mult", "n1", "n1")))),
                          context=ctx, state_types=(E.Fock, E.Fock))
+    elif name == "XF1":
+        ctx = {"n": lambda dims: np.diag(np.arange(dims[0])).astype(complex)}
+        op = E.Operation(E.CompositeOperationType.Expression, expr=("expm", ("s_mult", 0.7j, "n")),
+                         context=ctx, state_types=(E.Fock,))
     elif name == "PCustom":
         m = np.array(np.eye(2) + 0.35 * np.array([[0.2, 1j], [0.5, -0.3]]), dtype=complex)
         user = [m]
@@ -299,7 +315,7 @@ def _c15_task(first):
                 return None
             spec = slotspec[s]
             targets = C15_SPECS[spec][2][x]
-            entry = "ce:h1" if len(targets) > 1 else "state"
+            entry = "ce:h1" if (len(targets) > 1 or spec == "XF1") else "state"
             # twin: same world, freshly constructed operation
             wt = w.clone()
             wt.activate()
